@@ -764,8 +764,10 @@ def smoke_cases(draw):
     sc["bgzip_reference"] = src.bool(0.5)
     # one folder for the converted annotations of all runs (--genedb_output), and copies of the annotation that have
     # the same file name in different folders
-    sc["shared_genedb_output"] = src.bool(0.5)
+    sc["shared_genedb_output"] = src.bool(0.65)
     sc["same_basename"] = src.bool(0.5)
+    if sc["shared_genedb_output"]:
+        sc["n_procs"] = max(sc["n_procs"], 4)      # a collision needs runs that start within the same instant
     return sc
 
 
@@ -792,6 +794,7 @@ def eval_smoke(case, ctx):
         home = os.path.join(d, "home_shared")
         os.makedirs(home, exist_ok=True)
         procs = []
+        flag = os.path.join(d, "start.flag")
         for i in range(sc["n_procs"]):
             p2 = dict(paths)
             if not sc["same_gtf"]:
@@ -810,8 +813,13 @@ def eval_smoke(case, ctx):
             env["HOME"] = home
             log = open(os.path.join(d, "par_%d.log" % i), "wb")
             ctx.pipeline_runs += 1
-            procs.append((subprocess.Popen([PYTHON, os.path.join(REPO, "isoquant.py")] + argv, env=env, stdout=log,
-                                           stderr=subprocess.STDOUT, stdin=subprocess.DEVNULL), out, log))
+            procs.append((subprocess.Popen([PYTHON, os.path.join(os.path.dirname(os.path.abspath(build.__file__)),
+                                                                "barrier_launch.py"), REPO, flag] + argv, env=env,
+                                           stdout=log, stderr=subprocess.STDOUT, stdin=subprocess.DEVNULL), out, log))
+        # every interpreter has imported the repository by now (or does so within the next moments): go
+        import time
+        time.sleep(1.5)
+        open(flag, "w").close()
         for i, (p, out, log) in enumerate(procs):
             p.wait()
             log.close()
